@@ -45,6 +45,10 @@ type Profile struct {
 	Burst       float64
 	// Nested: N-mode yield probability per API call (0 = atomic reconciles, schedule S)
 	Nested      float64
+	// EventDriven: run the convergence phase in E mode (events, requeues and error retries only)
+	EventDriven bool
+	// CanarySteady: before the end, hold a running manual canary open and judge its steady state (C04)
+	CanarySteady bool
 }
 
 // Sim is the scenario engine: one case = one generated history.
@@ -273,9 +277,19 @@ func (e *Sim) Run(ctx *core.Ctx, idx int) {
 		}
 	}
 	desc["steps"] = w.Steps
+	if e.P.CanarySteady {
+		for _, ref := range refs {
+			w.CanarySteadyState(ref.ns, ref.name)
+		}
+	}
 	if e.P.Converge {
 		for _, ref := range refs {
-			res := w.Converge(ref.ns, ref.name, 1+edits[ref.ns+"/"+ref.name])
+			var res ConvergeResult
+			if e.P.EventDriven {
+				res = w.ConvergeE(ref.ns, ref.name, 1+edits[ref.ns+"/"+ref.name])
+			} else {
+				res = w.Converge(ref.ns, ref.name, 1+edits[ref.ns+"/"+ref.name])
+			}
 			desc["convergence:"+ref.ns+"/"+ref.name] = fmt.Sprintf("%+v", res)
 			if e.P.Retention && (res.Resolution == "kubectl-fail" || res.Resolution == "already-failed") && res.Reached {
 				w.RetentionPhase(ref.ns, ref.name)
